@@ -2357,7 +2357,9 @@ func (f *fragment) importRoaring(ctx context.Context, data []byte, clear bool) e
 		f.rowCache.Add(rowID, nil)
 		if updateCache {
 			anyChanged = true
-			f.cache.BulkAdd(rowID, f.cache.Get(rowID)+uint64(changes))
+			// Recount the row: the cache may not hold it (evicted, or never
+			// admitted), so its cached count cannot be the base of a delta.
+			f.cache.BulkAdd(rowID, f.storage.CountRange(rowID*ShardWidth, (rowID+1)*ShardWidth))
 		}
 	}
 	// we only set this if we need to update the cache
